@@ -10,12 +10,23 @@ from .. import core, frame, fault
 PROP = "C02"
 RE_MARK = re.compile(rb"\bS(\d+)_")
 RE_ID_MSG = re.compile(rb'"\[ref: (\d+)\] ')
-RE_ID_KV = re.compile(rb"\(ref = (\d+)[;,] ")
+RE_ID_KV = re.compile(rb"[(,] ?ref = (\d+)[;,] ")
 
 
 def stmt_line(marker, structured, rnd_bits):
+    """One uniquely marked statement (possibly with a directive line above it). Kinds that never receive an ID (ignored,
+    unusable ref) and kinds that receive it in the other style (no-kvp) are mixed in: they change how many IDs a file needs."""
     macro = ["info", "warn", "log::error"][rnd_bits % 3]
-    kv = ["", "k = 1; ", "user = id, n = 2; "][(rnd_bits // 3) % 3]
+    kv = ["", "k = 1; ", "user = id, n = 2; ", "user, n:? = 2; "][(rnd_bits // 3) % 4]
+    kind = (rnd_bits // 12) % 10
+    if kind == 0:
+        return ('    // breadlog:ignore\n    %s!(%s"S%d_ never referenced %d");\n' % (macro, kv, marker, rnd_bits % 97)).encode()
+    if kind == 1 and structured:
+        return ('    %s!(ref = some_id, k = 1; "S%d_ unusable reference %d");\n' % (macro, marker, rnd_bits % 97)).encode()
+    if kind == 2 and structured:
+        return ('    /* breadlog:no-kvp */\n    %s!(%s"S%d_ reference kept in the message %d");\n' % (macro, kv, marker, rnd_bits % 97)).encode()
+    if kind == 3:
+        return ('    %s!(target: "t//x", %s"S%d_ with target %d");\n' % (macro, kv, marker, rnd_bits % 97)).encode()
     return ('    %s!(%s"S%d_ message %d");\n' % (macro, kv, marker, rnd_bits % 97)).encode()
 
 
@@ -88,7 +99,8 @@ class World:
                 m = RE_MARK.search(line)
                 if not m:
                     continue
-                i = RE_ID_KV.search(line) if self.structured else RE_ID_MSG.search(line)
+                # structured projects may hold both forms (breadlog:no-kvp keeps the reference in the message)
+                i = (RE_ID_KV.search(line) or RE_ID_MSG.search(line)) if self.structured else RE_ID_MSG.search(line)
                 if i:
                     pairs.append((int(m.group(1)), int(i.group(1))))
         return pairs
@@ -112,7 +124,8 @@ def run_history(built, acts, structured, record=False):
                 for j in range(n):
                     at = 2 + int(pos * (len(lines) - 2))
                     at = min(max(2, at), len(lines) - 1)
-                    lines.insert(at, stmt_line(w.next_marker, structured, bits >> (3 * j)))
+                    for piece in reversed(stmt_line(w.next_marker, structured, bits >> (3 * j)).splitlines(keepends=True)):
+                        lines.insert(at, piece)
                     w.next_marker += 1
                 w.flush()
             elif kind == "del_stmt":
@@ -129,7 +142,11 @@ def run_history(built, acts, structured, record=False):
                 if target is not None:
                     tag = b"S%d_" % target
                     for rel in w.files:
-                        w.files[rel] = [l for l in w.files[rel] if tag not in l]
+                        ls = w.files[rel]
+                        for idx in [n_ for n_, l in enumerate(ls) if tag in l][::-1]:
+                            del ls[idx]
+                            if idx > 0 and b"breadlog:" in ls[idx - 1].lower() and ls[idx - 1].strip().startswith((b"//", b"/*")):
+                                del ls[idx - 1]      # the developer removes the statement together with its directive
                     w.flush()
             elif kind == "del_file":
                 rel = "src/f%d.rs" % a[1]
